@@ -14,8 +14,8 @@ func FindVertexHasLabelStart(pipe []*gripql.GraphStatement) ([]string, []*gripql
 			break
 		}
 		if i == 0 {
-			if _, ok := step.GetStatement().(*gripql.GraphStatement_V); ok {
-				//lookupV = lv
+			if v, ok := step.GetStatement().(*gripql.GraphStatement_V); ok && len(protoutil.AsStringList(v.V)) == 0 {
+				// V() without ids: a label scan can replace it
 			} else {
 				break
 			}
@@ -23,8 +23,10 @@ func FindVertexHasLabelStart(pipe []*gripql.GraphStatement) ([]string, []*gripql
 		}
 		switch s := step.GetStatement().(type) {
 		case *gripql.GraphStatement_HasLabel:
+			// only the first hasLabel becomes the scan; further ones stay as filters
 			labels = protoutil.AsStringList(s.HasLabel)
 			hasLabelLen = i + 1
+			isDone = true
 		default:
 			isDone = true
 		}
@@ -41,7 +43,7 @@ func FindEdgeHasLabelStart(pipe []*gripql.GraphStatement) ([]string, []*gripql.G
 			break
 		}
 		if i == 0 {
-			if _, ok := step.GetStatement().(*gripql.GraphStatement_E); ok {
+			if e, ok := step.GetStatement().(*gripql.GraphStatement_E); ok && len(protoutil.AsStringList(e.E)) == 0 {
 			} else {
 				break
 			}
@@ -49,8 +51,10 @@ func FindEdgeHasLabelStart(pipe []*gripql.GraphStatement) ([]string, []*gripql.G
 		}
 		switch s := step.GetStatement().(type) {
 		case *gripql.GraphStatement_HasLabel:
+			// only the first hasLabel becomes the scan; further ones stay as filters
 			labels = protoutil.AsStringList(s.HasLabel)
 			hasLabelLen = i + 1
+			isDone = true
 		default:
 			isDone = true
 		}
